@@ -287,24 +287,31 @@ impl Prop for C13 {
     match t {
       "civil" => {
         let (ylo, yhi) = shard_range(9999, shard, nshards);
+        let mut rev = Reverse::new(9);
         for y in ylo as i64 + 1..=yhi as i64 {
           run_case(env, out, "cyear", &Case::ints(&[y]), &ev);
           for m in 1..=12 {
             run_case(env, out, "cmonth", &Case::ints(&[y, m]), &ev);
+            rev.note("cmonth", &Case::ints(&[y, m]));
           }
         }
+        rev.run(env, out, &ev);
         out.set_exhaustive("cyear", true);
         out.set_exhaustive("cmonth", true);
       }
       "lunar" => {
         let l = lunlist();
         let (ylo, yhi) = shard_range(10000, shard, nshards);
+        let mut rev = Reverse::new(9);
         for y in ylo as i64..yhi as i64 {
           run_case(env, out, "lyear", &Case::ints(&[y]), &ev);
+          rev.note("lyear", &Case::ints(&[y]));
           for m in l.months_of(y) {
             run_case(env, out, "lmonth", &Case::ints(&[y, m]), &ev);
+            rev.note("lmonth", &Case::ints(&[y, m]));
           }
         }
+        rev.run(env, out, &ev);
         out.set_exhaustive("lyear", true);
         out.set_exhaustive("lmonth", true);
       }
